@@ -291,7 +291,8 @@ def query_layer(ctx, sess):
         if out != want:
             ctx.record_violation('run-differs-from-typing-the-query', '.run %s: %r vs %r' % (name, out[:200], want[:200]))
         # a statement typed after `.run NAME` is not affected by it (no default CLOSE left behind)
-        for typed in ('SELECT date, account, position FROM year >= 1900', 'SELECT count(*) AS n FROM year >= 1900 OPEN ON 1990-01-01'):
+        # (also the very text of the named query: typed, it is an ordinary statement without the default CLOSE)
+        for typed in ('SELECT date, account, position FROM year >= 1900', 'SELECT count(*) AS n FROM year >= 1900 OPEN ON 1990-01-01', qd.query_string):
             out, err = sess.run(typed)
             ctx.evaluations += 1
             ctx.count('typed-after-run')
